@@ -1,5 +1,5 @@
 CONSTANT Cfgs <- CfgSet
 SPECIFICATION Spec
-INVARIANTS TypeOK ChannelOk WriteBound
+INVARIANTS TypeOK ChannelOk WriteBound RefusedIdle
 CONSTRAINT Survey
 CHECK_DEADLOCK FALSE
